@@ -30,7 +30,7 @@ def mc_constants(nodes, **over):
          "SettleTicks": 7, "QuiesceTicks": max(3, len(nodes)), "MaxSubs": 1, "MaxRelays": 1, "MaxChurn": 1, "MaxPub": 1,
          "InitKinds": ALLKINDS,
          "FloodForwardToFloodsubPeers": True, "GossipRound": True, "RelayForwards": True, "HelloCarriesRelays": True,
-         "StrictSettled": True}
+         "StrictSettled": True, "Backpressure": False, "AnnounceLostAfterFull": False}
     c.update(SMALL)
     c.update(over)
     return c
@@ -51,8 +51,13 @@ def mc_jobs(ctx):
     jobs = []
     # exhaustive: every kind vector, graph, role assignment; churn and publications up to the bound
     jobs.append(("mc-n2", vlib.cfg_text(constants=mc_constants(two, MaxSubs=2, MaxChurn=2 if not ctx.thorough else 3, MaxPub=2),
-                                        invariants=INVS, symmetry="Sym2"), None, 900, 6))
-    jobs.append(("mc-n3", vlib.cfg_text(constants=mc_constants(three, InitKinds=TWOKINDS, MaxChurn=2), invariants=INVS, symmetry="Sym3"), None, 900, 8))
+                                        invariants=INVS, symmetry="Sym2"), None, 900, 4))
+    jobs.append(("mc-n3", vlib.cfg_text(constants=mc_constants(three, InitKinds=TWOKINDS, MaxChurn=2), invariants=INVS, symmetry="Sym3"), None, 1800, 4))
+    # backpressure at the instant of an interest change: announcements / GRAFT / PRUNE to peers with a full queue are delayed, never lost
+    jobs.append(("mc-n2-bp", vlib.cfg_text(constants=mc_constants(two, MaxSubs=2, MaxChurn=2, Backpressure=True), invariants=INVS, symmetry="Sym2"), None, 900, 2))
+    jobs.append(("mc-n3-bp", vlib.cfg_text(constants=mc_constants(three, InitKinds=TWOKINDS, Backpressure=True), invariants=INVS, symmetry="Sym3"), None, 1500, 4))
+    jobs.append(("bug-announce", vlib.cfg_text(constants=mc_constants(three, InitKinds=TWOKINDS, Backpressure=True, AnnounceLostAfterFull=True),
+                                               invariants=["P_C01_ExactlyOnce"], symmetry="Sym3"), "P_C01_ExactlyOnce", 900, 2))
     # liveness: every batch is eventually judged (no symmetry with a temporal property)
     jobs.append(("mc-n2-live", vlib.cfg_text(spec="FairSpec", constants=mc_constants(two, MaxSubs=2), properties=["P_C01_Live"]), None, 600, 2))
     # the IHAVE/IWANT round: two gossipsub pairs joined by a link that stays outside every mesh
@@ -73,9 +78,9 @@ def mc_jobs(ctx):
         # N = 4 (all gossipsub, every graph and role assignment): random behaviours of the protocol model
         jobs.append(("sim-n4-gossip", vlib.cfg_text(constants=mc_constants(four, InitKinds='{"gossip"}', MaxChurn=2, MaxPub=2), invariants=INVS),
                      "sim", 900, 1))
-        jobs.append(("mc-n3-allkinds", vlib.cfg_text(constants=mc_constants(three, MaxChurn=2), invariants=INVS, symmetry="Sym3"), None, 1500, 8))
+        jobs.append(("mc-n3-allkinds", vlib.cfg_text(constants=mc_constants(three, MaxChurn=2), invariants=INVS, symmetry="Sym3"), None, 2400, 4))
         jobs.append(("mc-n3-pub2", vlib.cfg_text(constants=mc_constants(three, InitKinds=TWOKINDS, MaxPub=2), invariants=INVS, symmetry="Sym3"),
-                     "timeout-ok", 900, 6))
+                     "timeout-ok", 1200, 4))
     return jobs
 
 
@@ -296,7 +301,54 @@ def decorate(s, rng, thorough):
                 ops2.append(out[k])
                 k += 1
         d["ops"] = ops2
+    # backpressure at the instant of an interest change: small outbound queues, a burst of 256 KiB messages on the bulk topic in
+    # the same virtual instant as the operation (only where the node has >= 2 neighbours); no second topic / stream there and
+    # batches of at most 3 publishers, so that the measured traffic itself can never fill a queue of 8
+    if s["n"] >= 3 and "uroles" not in d and not any(o["op"] == "stream" for o in d["ops"]) and rng.random() < (0.05 if thorough else 0.04):
+        kk, hit, ops3, npub = 0, False, [], 0
+        for o in d["ops"]:
+            o = dict(o)
+            if o["op"] == "pub":
+                npub += 1
+                if npub > 3:
+                    continue
+            else:
+                npub = 0
+                if o["op"] in ("sub", "cancel", "relay", "unrelay"):
+                    if len(nbrs(cfg_after(s, kk)[0], o["a"])) >= 2:
+                        o["burst"], hit = BURST, True
+                kk += 1
+            ops3.append(o)
+        if hit:
+            d["ops"], d["queue"], d["bulk"] = ops3, QUEUE, True
+            d.pop("late_roles", None)
     return d
+
+
+QUEUE, BURST = 8, 14
+
+
+def backpressure_family(ctx, rng):
+    """Directed: a hub that subscribes / relays / cancels and re-subscribes on the measured topic in the very instant its outbound
+    queues are full (it is pushing a burst on the bulk topic), for all three routers and mixes; then the usual settle period and one
+    publication by the hub and two leaves."""
+    fam = []
+    def star(kinds, op, role_a="none"):
+        n = len(kinds)
+        if op == "resub":
+            ops = [{"op": "cancel", "a": 1, "b": 0, "gap": "h", "burst": BURST}, {"op": "sub", "a": 1, "b": 0, "gap": rng.choice(["s", "h"]), "burst": BURST}]
+        else:
+            ops = [{"op": op, "a": 1, "b": 0, "gap": rng.choice(["s", "h", "l"]), "burst": BURST}]
+        ops += [{"op": "pub", "a": i, "b": 0, "gap": "l"} for i in range(1, min(n, 3) + 1)]
+        return {"n": n, "kinds": kinds, "edges": [[1, i] for i in range(2, n + 1)], "roles": [role_a] + ["sub"] * (n - 1), "params": "small",
+                "src": "directed-backpressure", "queue": QUEUE, "bulk": True, "ops": ops}
+    for kinds in (["flood"] * 4, ["random"] * 4, ["gossip"] * 3, ["gossip", "flood", "gossip"], ["flood", "gossip", "gossip", "random"],
+                  ["random", "flood", "gossip", "random"], ["gossip", "flood", "random"]):
+        fam.append(star(kinds, "sub"))
+        fam.append(star(kinds, "relay"))
+    for kinds in (["flood"] * 4, ["random"] * 4, ["gossip"] * 3):
+        fam.append(star(kinds, "resub", "sub"))
+    return fam
 
 
 def long_family(ctx, rng):
@@ -494,6 +546,16 @@ def batch_tags(c, oplines, scn=None, r=None, ru=None):
                 tags.add("relay_after_other_sub")
     if scn.get("late_roles"):
         tags.add("late_roles")
+    # an interest change announced while >= 1 outbound queue of the node was full (its own snapshot) and >= 1 other peer was
+    # present, with >= 1 announcement dropped and left to announceRetry - before this (validated) batch
+    for o in oplines:
+        if o["k"] < c["k"] and o.get("ok") and o.get("burst") and o.get("qfull", 0) >= 1 and o.get("npeers", 0) >= 2 and o.get("anndrop", 0) >= 1:
+            if o["op"] in ("sub", "relay"):
+                tags.add("bp_" + kinds[o["a"] - 1])
+            else:
+                tags.add("bp_unsub")
+            if o.get("ctldrop", 0) >= 1:
+                tags.add("bp_ctl_dropped")
     if c.get("stream"):
         tags.add("stream")
         ev = sorted(e[0] for e in c["meshev"] if e[1] == 1)
@@ -512,7 +574,7 @@ def batch_tags(c, oplines, scn=None, r=None, ru=None):
 
 
 OBLIGATIONS = ["relaycut", "fanoutpub", "nonmember_pub", "gossip_flood", "randomsub", "ihave_needed", "unsub_resub", "disc_reconn",
-               "self", "two_subs", "other_topic", "relay_after_other_sub", "late_roles", "long_redraw"]
+               "self", "two_subs", "other_topic", "relay_after_other_sub", "late_roles", "long_redraw", "bp_flood", "bp_random", "bp_gossip"]
 
 
 # ----------------------------------------------------------------------------- main
@@ -610,7 +672,7 @@ def run(ctx):
             d = decorate(s, rng, ctx.thorough)
             d["gid"] = len(scns)
             scns.append(d)
-        for d in long_family(ctx, rng):
+        for d in long_family(ctx, rng) + backpressure_family(ctx, rng):
             d["gid"] = len(scns)
             scns.append(d)
         vlib.write_ndjson(os.path.join(ctx.work, "scenarios.ndjson"), scns)
@@ -764,8 +826,10 @@ def run(ctx):
         "simnet links (1 ms latency, no loss); every node created at the same instant (heartbeats in phase); quiescence wait = 2N + HistoryGossip + 2 heartbeats",
         "N <= 3 configurations are enumerated by TLC and sampled by VERIF_SEED above the cap; N = 4, 5 are TLC -simulate samples",
         "timing of churn steps, which eligible publishers form a batch, the two-subscription variant, the parameter family, hello-vs-announce construction "
-        "order and the roles on the unrelated second topic U are seeded choices of the orchestrator; the second topic exists at code level only (in Net.tla "
+        "order, the backpressure variant and the roles on the unrelated second topic U are seeded choices of the orchestrator; the second topic exists at code level only (in Net.tla "
         "topics are independent by construction: a second topic would be an independent copy of the same state)",
+        "backpressure family: outbound queues of 8, bursts of 14 x 256 KiB on a bulk topic in the same virtual instant as the interest change; 'queue full' is "
+        "read from the node's own snapshot and the dropped announcements from its tracer; bulk messages are never judged; measured batches there have <= 3 publishers",
         "long-running streams (directed family: hubs at D+Dlazy, a late link outside the meshes; plus a seeded fraction of generated scenarios) are judged PER "
         "MESSAGE: at its publish instant every joined gossipsub node has <= Dlazy gossipsub topic peers outside its mesh and no GRAFT/PRUNE happens anywhere "
         "for N + HistoryGossip + 1 heartbeats afterwards; this admits hubs whose backoffs are pending (a weaker reading of 'settled' than for single batches)"])
@@ -799,7 +863,7 @@ def report(ctx, scn, c, r, line, topic="T"):
                                "%s of message %s%s (published by node %s %s) at node %s subscription %s: delivered %d time(s); kinds=%s edges=%s live=%s relays=%s%s%s" % (
                                    kind, d["m"], "" if topic == "T" else " on the second topic", p, kinds[p - 1] if p else "?", d["n"], d["s"], d["c"], kinds,
                                    line["edges"], c["live"], c["irelays"], (" uroles=%s" % scn["uroles"]) if scn.get("uroles") else "", drift),
-                               {"scenario": {k: scn[k] for k in ("n", "kinds", "roles", "edges", "ops", "params", "uroles", "late_roles") if k in scn},
+                               {"scenario": {k: scn[k] for k in ("n", "kinds", "roles", "edges", "ops", "params", "uroles", "late_roles", "queue", "bulk") if k in scn},
                                 "check_line": {k: v for k, v in line.items() if k not in ("log", "pubs", "deliv")} if line.get("stream") else
                                               {k: v for k, v in line.items() if k != "log"}, "verdict": {k: (v if k not in ("bad", "dups") else v[:40]) for k, v in r.items()},
                                 "how": "write the scenario object as one line to a file and run harness/drivers/c01 TestC01Replay with VERIF_IN/VERIF_OUT (VERIF_C01_DEBUG=1 adds the wire log)"})
